@@ -1054,10 +1054,8 @@ impl<'a> Run<'a> {
         if let Some(s) = step { self.h.steps.push(s); }
         if d.code != 0 { self.h.rejected = true; }
         for (cls, whatf) in fails {
-            if !cls.starts_with("F") && !cls.starts_with("harness") || true {
                 self.h.fails.push(serde_json::json!({"class": cls, "what": [whatf], "step": self.h.script.len() - 1,
                     "case": {"seed": self.seed, "case": self.case, "len": self.len, "script": self.h.script.clone()}}));
-            }
         }
         for p in self.w.v.panics.borrow_mut().drain(..) { self.stats.panics.push(p); }
         d
